@@ -43,8 +43,12 @@ def derivative(poly: PolyLike, *diffvars: Union[ndpoly, str, int]) -> ndpoly:
             idx = diffvar
         else:
             diffvar = numpoly.aspolynomial(diffvar)
+            # retained all-zero terms must not count as extra indeterminants.
+            exponents, _ = numpoly.remove_redundant_coefficients(
+                diffvar.exponents, diffvar.coefficients
+            )
             exponents, names = numpoly.remove_redundant_names(
-                diffvar.exponents, diffvar.names
+                exponents, diffvar.names
             )
             assert names is not None and len(names) == 1, "one at the time"
             assert numpy.all(exponents == 1), "derivative variable assumes singletons"
@@ -142,4 +146,7 @@ def hessian(poly: PolyLike) -> ndpoly:
                      [0, 0, 2*q0]]])
 
     """
-    return gradient(gradient(poly))
+    # the inner gradient must keep every indeterminant, also those
+    # that no longer occur in it, for the outer one to differentiate by.
+    with numpoly.global_options(retain_names=True):
+        return gradient(gradient(poly))
